@@ -58,7 +58,7 @@ class StrategyFamily(common.Family):
       stage_threads = [rng.choice([0, 0, 1, 2, 3]) for _ in range(nst)]
       if not any(stage_threads):
         stage_threads[-1] = 2
-    return {
+    cfg = {
         'spec': spec,
         'strategy': strat,
         # aggregate-only iteration (with_result=False): the batches are not
@@ -86,6 +86,14 @@ class StrategyFamily(common.Family):
         'sim': {'fine': rng.random() < 0.2,
                 'stay': rng.choice([0.0, 0.0, 0.5, 0.8])},
     }
+    # scale: a few runs use a data set longer than the read-ahead of the
+    # sequence sources (64 elements), so that a shard / per-thread sub-shard
+    # spans several read-ahead blocks and ends inside one (drawn last, so the
+    # other dimensions of a seed are unchanged)
+    if rng.random() < 0.05 and strat != 'interleaved':
+      spec['n'] = rng.randrange(65, 210)
+      cfg['sim']['fine'] = False
+    return cfg
 
   # ------------------------------------------------------------------------
   def drive(self, cfg, sim):
